@@ -45,18 +45,21 @@ namespace c19
         long accessCapPerThread{20000};
         int perturb{0};  // 0 none | 1 sched_yield at YIELD hooks | 2 + short sleeps, also at unprotected accesses
         unsigned long long seed{1};
-        // YIELD sites where a thread is held back for 3-6 ms: "site" = every arrival, "site#k" = the k-th arrival only
+        // YIELD sites where a thread is held back until the others have progressed: "site" = every arrival, "site#k" = the k-th arrival only, "site%m" = every m-th arrival
         struct Stall
         {
             std::string site;
-            long k;
+            long k;       // > 0: the k-th arrival only
+            long every;   // > 0: every every-th arrival
             std::unique_ptr<std::atomic<long>> arrivals;
         };
         std::vector<Stall> stall;
         void addStall(const std::string &spec)
         {
-            auto h = spec.find('#');
-            stall.push_back(Stall{spec.substr(0, h), h == std::string::npos ? 0 : atol(spec.c_str() + h + 1),
+            auto h = spec.find_first_of("#%");
+            long v = h == std::string::npos ? 0 : atol(spec.c_str() + h + 1);
+            bool periodic = h != std::string::npos && spec[h] == '%';
+            stall.push_back(Stall{spec.substr(0, h), periodic ? 0 : v, periodic ? v : 0,
                                   std::unique_ptr<std::atomic<long>>(new std::atomic<long>(0))});
         }
     };
@@ -98,10 +101,14 @@ namespace c19
                 if (st.site == e.name)
                 {
                     long n = st.arrivals->fetch_add(1) + 1;
-                    if (st.k == 0 || st.k == n)
+                    if (st.every > 0 ? n % st.every == 0 : (st.k == 0 || st.k == n))
                     {
+                        // hold this thread until the OTHER threads have made progress (2500 more events logged), at most
+                        // 60 ms: independent of how loaded the machine is
                         ++r.sleeps;
-                        std::this_thread::sleep_for(std::chrono::microseconds(3000 + next(b) % 3000));
+                        const unsigned long long s0 = r.seq.load();
+                        for (int i = 0; i < 300 && r.seq.load() - s0 < 2500; ++i)
+                            std::this_thread::sleep_for(std::chrono::microseconds(200));
                     }
                     return;
                 }
@@ -125,8 +132,9 @@ namespace c19
                                         !strncmp(e.name, "SeedGenerator.", 14) || !strncmp(e.name, "AllocatedSpaces.", 16) ||
                                         !strncmp(e.name, "GNAT.", 5)))
             return;
-        if (e.kind == Event::ACCESS && ++b->accesses > r.accessCapPerThread)
+        if (e.kind == Event::ACCESS && ++b->accesses > r.accessCapPerThread && b->accesses % 64 != 0)
         {
+            // beyond the cap one access in 64 is kept (a thread polling in a tight loop stays visible)
             // only accesses may be dropped (fewer comparisons); ordering events never are (that could invent races)
             ++r.dropped;
             return;
@@ -214,10 +222,17 @@ namespace c19
                     j = json{{"e", "Join"}, {"t", ids.tidOf(e.tid)}, {"tok", ids.objOf(e.object)}};
                     break;
                 case Event::ACQUIRE:
+                    if (e.nlocks == 1 && e.heldMask == 0)
+                    {
+                        // the hook says "locked" but the calling thread is measured not to own the mutex: no edge
+                        j = json{{"e", "Note"}, {"t", ids.tidOf(e.tid)}, {"what", "acquire event without ownership"}, {"name", name}};
+                        break;
+                    }
                     j = json{{"e", "Acquire"}, {"t", ids.tidOf(e.tid)}, {"m", ids.objOf(e.object)}, {"name", name}, {"site", site}};
                     break;
                 case Event::RELEASE:
-                    j = json{{"e", "Release"}, {"t", ids.tidOf(e.tid)}, {"m", ids.objOf(e.object)}, {"name", name}, {"site", site}};
+                    j = json{{"e", "Release"}, {"t", ids.tidOf(e.tid)}, {"m", ids.objOf(e.object)}, {"name", name}, {"site", site},
+                             {"measured", e.nlocks == 1}, {"owned", e.heldMask != 0}};
                     break;
                 case Event::ACQUIRE_SHARED:
                     j = json{{"e", "AcquireShared"}, {"t", ids.tidOf(e.tid)}, {"m", ids.objOf(e.object)}, {"name", name}, {"site", site}};
